@@ -1,6 +1,11 @@
 #!/bin/sh
 # Build the verification framework from files on disk only (offline).
 set -e
-cd /verif/lean && lake build 2>&1 | tail -5
-cd /verif/harness && export GOFLAGS=-mod=mod GOPROXY=off GOSUMDB=off GOTOOLCHAIN=local && mkdir -p /verif/build && go build -tags verif -o /verif/build/harness ./cmd/harness
+V="$(cd "$(dirname "$0")" && pwd)"
+cd "$V/lean" && lake build 2>&1 | tail -5
+export GOFLAGS=-mod=mod GOPROXY=off GOSUMDB=off GOTOOLCHAIN=local
+mkdir -p "$V/build"
+if [ -z "$VERIF_REPO" ] || [ "$VERIF_REPO" = /repo ]; then
+  cd "$V/harness" && go build -tags verif -o "$V/build/harness" ./cmd/harness
+fi
 echo setup-ok
